@@ -60,6 +60,13 @@ def range_fixes_small(cfg, tier, seed):
     vals = (lo, lo + 1, mx, lo + ((seed + 1) * 2654435761) % (mx - lo)) if sb < 32 else (lo, lo + 1)
     return [dict(range=v, range0=v) for v in vals]
 
+def range_fixes_small_sym(cfg, tier, seed):
+    """as range_fixes_small, plus the fully symbolic run at StateBits = 16 (C11: the seal-after-Inverted corner needs a tiny
+    post-step range with a wrapping point, which none of the boundary values of the pre-step range produces)"""
+    out = range_fixes_small(cfg, tier, seed)
+    if tier == 'quick' and cfg_bits(cfg)[1] <= 16: out = [None] + out
+    return out
+
 def cuts_fixes(cfg, tier, seed):
     """concrete cut points (c1, c2) of the 3-symbol model at wide configurations: probabilities and cumulatives
     become constants, so every multiplication/division in the step is by a constant (linear for the int-blasting
@@ -166,7 +173,7 @@ PROPS['C10'] = dict(
 PROPS['C11'] = dict(
     obligations=[
         L('c11_suffix_k1', 'k_c11_suffix_k1_{cfg}', RQ, ['u8_u16_p4', 'u8_u16_p8', 'u16_u32_p12', 'u16_u32_p16', 'u32_u64_p24', 'u32_u64_p32'], fixes=range_fixes),
-        L('c11_suffix_from_inverted', 'k_c11_suffix_inv_k1_{cfg}', ['u8_u16_p4', 'u32_u64_p24'], ['u8_u16_p4', 'u8_u16_p8', 'u16_u32_p12', 'u16_u32_p16', 'u32_u64_p24', 'u32_u64_p32'], fixes=range_fixes_small),
+        L('c11_suffix_from_inverted', 'k_c11_suffix_inv_k1_{cfg}', ['u8_u16_p4', 'u32_u64_p24'], ['u8_u16_p4', 'u8_u16_p8', 'u16_u32_p12', 'u16_u32_p16', 'u32_u64_p24', 'u32_u64_p32'], fixes=range_fixes_small_sym, explore_cap=dict(quick=500, thorough=3000)),
         L('c11_suffix_k2', 'k_c11_suffix_k2_{cfg}', [], ['u8_u16_p4', 'u8_u16_p8', 'u16_u32_p12', 'u32_u64_p24'], cap=dict(quick=90, thorough=600), explore_cap=dict(quick=300, thorough=3000)),
         K('c11_suffix_k2_u8_u16_p4_cbmc', 'kk', 'c11_suffix_k2_u8_u16_p4', tiers=('thorough',), tt=7200), K('c11_suffix_k1_u8_u16_p4_cbmc', 'kk', 'c11_suffix_k1_u8_u16_p4', tq=900),
         K('c11_suffix_k1_u8_u16_p8_cbmc', 'kk', 'c11_suffix_k1_u8_u16_p8', tiers=('thorough',), tt=3600),
@@ -278,8 +285,8 @@ PROPS['C15'] = dict(
         K('c15_huffman_n1', 'bits', 'huffman_n1', tq=600), K('c15_huffman_n2', 'bits', 'huffman_n2', tq=600),
         K('c15_huffman_n3', 'bits', 'huffman_n3', tq=900), K('c15_huffman_n4', 'bits', 'huffman_n4', tiers=('thorough',), tt=7200),
         # the same harness bodies driven by a symbolic byte buffer through engine L (harness/src/kernels/bridge.rs)
-        L('c15_huffman_bridge', 'k_h_huffman_{cfg}', ['n2', 'n3'], ['n2', 'n3', 'n4'], unwind=24, feas_ms=2000, explore_cap=dict(quick=400, thorough=3000)),
-        K('c15_huffman_float_n2', 'bits', 'huffman_float_n2', tq=600), K('c15_huffman_float_n3', 'bits', 'huffman_float_n3', tiers=('thorough',), tt=7200),
+        L('c15_huffman_bridge', 'k_h_huffman_{cfg}', ['n2', 'n3', 'float_n2', 'float_n3'], ['n2', 'n3', 'float_n2', 'float_n3', 'n4'], soft=[21], unwind=24, feas_ms=2000, explore_cap=dict(quick=400, thorough=3000)),
+        K('c15_huffman_float_n2', 'bits', 'huffman_float_n2', tiers=('thorough',), tt=7200), K('c15_huffman_float_n3', 'bits', 'huffman_float_n3', tiers=('thorough',), tt=7200),
     ],
     bounds='all weight vectors of n <= 3 (quick) / n <= 4 (thorough) u8 weights widened to u32 (no overflow), and all f32 triples (NaN => error; zeros, infinities, repeated weights); '
            'optimality against every complete code-length vector in every assignment; tie-breaking pinned by codeword lengths against a heap-free reference merge',
@@ -293,7 +300,8 @@ M_FIXED = [K('m_fixed_contiguous_p8', 'models', 'fixed_contiguous_p8', tq=1500),
            K('m_fixed_lookup_p3', 'models', 'fixed_lookup_p3', tiers=('thorough',), tt=7200, mem_gb=40), K('m_fixed_lookup_p8', 'models', 'fixed_lookup_p8', tiers=('thorough',)),
            BR('m_fixed_harness_via_irsym', ['fixed_noncontig_p4', 'fixed_noncontig_p8'], ['fixed_noncontig_p4', 'fixed_noncontig_p8', 'fixed_lookup_p3'], explore_cap=dict(quick=300, thorough=3000))]
 M_UNIFORM = [K('m_uniform_u8_p8', 'models', 'uniform_u8_p8', tq=600), K('m_uniform_u8_p5', 'models', 'uniform_u8_p5', tq=600)]
-M_FLOAT = [K('m_fast_f32_n3_p4_norm1', 'models', 'fast_f32_n3_p4_norm1', tq=900), K('m_lazy_f32_n3_p4_valid', 'models', 'lazy_f32_n3_p4_valid', tq=900), K('m_fast_f32_n2_p3_nonorm', 'models', 'fast_f32_n2_p3_nonorm', tq=900)]
+M_FLOAT = [BR('m_float_harness_via_irsym', ['fast_f32_n3_p4_norm1'], ['fast_f32_n3_p4_norm1', 'fast_f32_n2_p3_nonorm', 'lazy_f32_n3_p4_valid', 'lazy_vs_eager_f32_n3_p4', 'fast_f32_n3_p24_u32'], cap=dict(quick=60, thorough=600)),
+           K('m_fast_f32_n3_p4_norm1', 'models', 'fast_f32_n3_p4_norm1', tq=900), K('m_lazy_f32_n3_p4_valid', 'models', 'lazy_f32_n3_p4_valid', tq=900), K('m_fast_f32_n2_p3_nonorm', 'models', 'fast_f32_n2_p3_nonorm', tq=900)]
 M_QUANT = [K('m_quantizer_u8_p4_sup3', 'models', 'quantizer_u8_p4_sup3', tq=1200), K('m_fast_f32_n3_p24_u32', 'models', 'fast_f32_n3_p24_u32', tiers=('thorough',), tt=14400, mem_gb=40)]
 MODEL_BOUNDS = ('Probability = u8; supports of <= 3 symbols; PRECISION in {8 (= Probability bits, wrapping total), 4} for fixed-point tables, 4 / 3 for f32 tables '
                 '(n=3 normalised to exactly 1.0; n=2 any finite non-negative entries), leaky quantiser over a stub distribution whose CDF is a fully symbolic f64 table '
